@@ -299,6 +299,9 @@ func (e *Engine) equalsT(t types.Type, x, y value) *Term {
 		if !types.Identical(xi.t, yi.t) {
 			return False
 		}
+		if _, ok := xi.v.(builtinObj); ok { // engine-side objects (contexts, reflect types): identity
+			return BoolC(xi.v == yi.v)
+		}
 		return e.equalsT(xi.t, xi.v, yi.v)
 	case *types.Chan:
 		return BoolC(x.(*chanV) == y.(*chanV))
